@@ -14,7 +14,7 @@ Section Trans.
   Notation IHn := (IHn rx).
 
   (* receiver proper against receiver proper against a plain right operand: by the middle type *)
-  Lemma core a b c : IHn (tsize a + tsize b + tsize c) -> gd a -> gd b -> gdr c ->
+  Lemma core a b c : IHn (tsize a + tsize b + tsize c) -> gd a -> gd b -> gd c ->
     rcv a = true -> rcv b = true -> plain c = true -> recv a b = true -> recv b c = true -> recv a c = true.
   Proof.
     intros IH Ha Hb Hc Ra Rb Hp Hab Hbc. destruct b; try discriminate Rb.
@@ -46,7 +46,7 @@ Section Trans.
   Ltac sz := cbn [tsize]; lia.
 
   (* step 3: the middle type is a receiver proper *)
-  Lemma trans_left a b c : IHn (tsize a + tsize b + tsize c) -> gd a -> gd b -> gdr c ->
+  Lemma trans_left a b c : IHn (tsize a + tsize b + tsize c) -> gd a -> gd b -> gd c ->
     is_any a = false -> rcv b = true -> plain c = true ->
     recv a b = true -> asg b c = true -> recv b c = true -> asg a c = true.
   Proof.
@@ -65,12 +65,12 @@ Section Trans.
       + (* NotUndef *) cbn [LatticeUnfold.recv] in Hab. apply andb_true_iff in Hab. destruct Hab as [Hnb Hab].
         apply negb_true_iff in Hnb. apply notundef_intro.
         * destruct (nullable c) eqn:Enc; [|reflexivity].
-          destruct Hc as [[_ Hnc] _]. rewrite (nullable_mono rx false c Hnc b Hbc Enc) in Hnb. discriminate.
+          destruct Hc as [_ Hnc]. rewrite (nullable_mono rx false c Hnc b Hbc Enc) in Hnb. discriminate.
         * apply (IH a b c); try assumption. sz.
   Qed.
 
   (* step 2: the right type is plain, the middle type is taken apart *)
-  Lemma trans_mid a b c : IHn (tsize a + tsize b + tsize c) -> gd a -> gd b -> gdr c ->
+  Lemma trans_mid a b c : IHn (tsize a + tsize b + tsize c) -> gd a -> gd b -> gd c ->
     is_any a = false -> is_any b = false -> plain c = true ->
     asg a b = true -> asg b c = true -> recv b c = true -> asg a c = true.
   Proof.
@@ -105,7 +105,7 @@ Section Trans.
   Qed.
 
   (* step 1: the right type is taken apart *)
-  Lemma trans_step a b c : IHn (tsize a + tsize b + tsize c) -> gd a -> gd b -> gdr c ->
+  Lemma trans_step a b c : IHn (tsize a + tsize b + tsize c) -> gd a -> gd b -> gd c ->
     asg a b = true -> asg b c = true -> asg a c = true.
   Proof.
     intros IH Ha Hb Hc Hab Hbc.
@@ -116,10 +116,10 @@ Section Trans.
       + apply (trans_mid a b c); assumption.
       + apply asg_notundef_r1. apply (IH a b nt); try assumption. sz.
     - destruct c; try discriminate.
-      + destruct Hc as [[_ Hn] _]. discriminate.
+      + destruct Hc as [_ Hn]. discriminate.
       + (* Variant *) apply asg_variant_r. intros t Ht. apply (IH a b t); try assumption.
         * pose proof (tsize_variant ts t Ht). lia.
-        * apply (gdr_variant ts t Hc Ht).
+        * apply (gd_variant ts t Hc Ht).
         * apply (asg_variant_elim rx false b ts Hbc t Ht).
       + (* Optional *) destruct (asg_optional_elim rx false b c Hbc) as [Hnb Hbct].
         destruct Hb as [Hwb Hnub].
@@ -130,7 +130,7 @@ Section Trans.
         apply asg_notundef_r1. apply (IH a b c); try assumption. sz.
   Qed.
 
-  Theorem asg_trans_gd : forall n a b c, (tsize a + tsize b + tsize c < n)%nat -> gd a -> gd b -> gdr c ->
+  Theorem asg_trans_gd : forall n a b c, (tsize a + tsize b + tsize c < n)%nat -> gd a -> gd b -> gd c ->
     asg a b = true -> asg b c = true -> asg a c = true.
   Proof.
     induction n as [|n IHn']; intros a b c Hlt; [lia|].
@@ -138,17 +138,16 @@ Section Trans.
   Qed.
 End Trans.
 
-(* Transitivity of assignability in the rule-free model.  Side conditions: what the Go constructors guarantee
-   (wf_ty), no Unit type (two-way assignable by definition), and — for the rightmost type only — no negative
-   maximum in an Array / Hash / Tuple size (open finding trans-negative-collection-size). *)
+(* Transitivity of assignability in the rule-free model, for ALL types of the model.  Side conditions: what the Go
+   constructors guarantee (wf_ty) and no Unit type (two-way assignable by definition).  (Before the fix of
+   trans-negative-collection-size the rightmost type also had to be free of negative collection maxima.) *)
 Theorem asg_trans : forall rx a b c,
   wf_ty a = true -> wf_ty b = true -> wf_ty c = true ->
-  no_unit a = true -> no_unit b = true -> no_unit c = true -> sz_nonneg c = true ->
+  no_unit a = true -> no_unit b = true -> no_unit c = true ->
   asg rx false a b = true -> asg rx false b c = true -> asg rx false a c = true.
 Proof.
-  intros rx a b c Hwa Hwb Hwc Hna Hnb Hnc Hsc Hab Hbc.
-  apply (asg_trans_gd rx (S (tsize a + tsize b + tsize c)) a b c); try assumption; [lia|split; assumption..|].
-  split; [split; assumption|assumption].
+  intros rx a b c Hwa Hwb Hwc Hna Hnb Hnc Hab Hbc.
+  apply (asg_trans_gd rx (S (tsize a + tsize b + tsize c)) a b c); try assumption; [lia|split; assumption..].
 Qed.
 
 (* the same for the model of the code (rule enabled), wherever the by-specification rule cannot have
@@ -156,25 +155,38 @@ Qed.
 Theorem asg_trans_code : forall rx a b c,
   wf_ty a = true -> wf_ty b = true -> wf_ty c = true ->
   no_unit a = true -> no_unit b = true -> no_unit c = true ->
-  rule_free a b = true -> rule_free b c = true -> rule_free a c = true -> sz_nonneg c = true ->
+  rule_free a b = true -> rule_free b c = true -> rule_free a c = true ->
   asg rx true a b = true -> asg rx true b c = true -> asg rx true a c = true.
 Proof.
-  intros rx a b c Hwa Hwb Hwc Hna Hnb Hnc Rab Rbc Rac Hsc Hab Hbc.
+  intros rx a b c Hwa Hwb Hwc Hna Hnb Hnc Rab Rbc Rac Hab Hbc.
   rewrite (asg_rule_irrelevant rx a b Rab) in Hab. rewrite (asg_rule_irrelevant rx b c Rbc) in Hbc.
-  rewrite (asg_rule_irrelevant rx a c Rac). exact (asg_trans rx a b c Hwa Hwb Hwc Hna Hnb Hnc Hsc Hab Hbc).
+  rewrite (asg_rule_irrelevant rx a c Rac). exact (asg_trans rx a b c Hwa Hwb Hwc Hna Hnb Hnc Hab Hbc).
 Qed.
 
-(* the statement without the size guard is false, in the model as in the code:
-   Array[Integer,-1,5] >= Array[String,-1,0] >= Array[String,-1,-1], but not Array[Integer,-1,5] >= Array[String,-1,-1] *)
+(* the statement without the rule_free guard, per relation: true of the rule-free relation (asg_trans), false of
+   the model of the code through the by-specification rule "a Struct accepts a Hash type":
+   Struct[{a=>Integer}] >= Hash[String,Integer,1,1] >= Struct[{b=>Integer}], but not Struct[{a=>..}] >= Struct[{b=>..}] *)
 Definition asg_trans_unguarded (hs : bool) : Prop := forall rx a b c,
   wf_ty a = true -> wf_ty b = true -> wf_ty c = true ->
   no_unit a = true -> no_unit b = true -> no_unit c = true ->
   asg rx hs a b = true -> asg rx hs b c = true -> asg rx hs a c = true.
 
-Lemma asg_trans_unguarded_refuted : forall hs, ~ asg_trans_unguarded hs.
+Lemma asg_trans_unguarded_rule_free : asg_trans_unguarded false.
+Proof. exact asg_trans. Qed.
+
+Lemma asg_trans_unguarded_code_refuted : ~ asg_trans_unguarded true.
 Proof.
-  intros hs H.
-  specialize (H (fun _ _ => false) (TArray (TInteger 0 9) (-1) 5) (TArray TString (-1) 0) (TArray TString (-1) (-1))
+  intros H.
+  pose (i := TInteger (-9223372036854775808) 9223372036854775807).
+  specialize (H (fun _ _ => false) (TStruct [([97%N], (TStringVal [97%N], i))]) (THash TString i 1 1)
+                (TStruct [([98%N], (TStringVal [98%N], i))])
                 eq_refl eq_refl eq_refl eq_refl eq_refl eq_refl).
-  destruct hs; vm_compute in H; specialize (H eq_refl eq_refl); discriminate H.
+  vm_compute in H. specialize (H eq_refl eq_refl). discriminate H.
 Qed.
+
+(* the chains that refuted the statement before the fix (a sub-range of [-1,0] can have max < 0) are accepted now *)
+Lemma asg_trans_negative_size_chain : forall hs,
+  let rx := fun _ _ => false in
+  let a := TArray (TInteger 0 9) (-1) 5 in let b := TArray TString (-1) 0 in let c := TArray TString (-1) (-1) in
+  asg rx hs a b = true /\ asg rx hs b c = true /\ asg rx hs a c = true.
+Proof. intros []; vm_compute; repeat split; reflexivity. Qed.
